@@ -355,6 +355,51 @@ polyseed_data* pv_seed_from_model(const pv_mseed* m) {
     return st == POLYSEED_OK ? s : NULL;
 }
 
+/* ------------------------------------------------------------------ concurrent sections of the functional drivers */
+#include <pthread.h>
+typedef struct conc_arg { int tid, iters, yield_pct; uint64_t seed; pv_conc_fn fn; void* user; pv_conc_result* res; pthread_barrier_t* bar; } conc_arg;
+static void* conc_worker(void* p) {
+    conc_arg* a = p;
+    pv_world_init(a->seed + (uint64_t)a->tid * 0x9e3779b97f4a7c15ull);
+    pv_w->yield_pct = a->yield_pct; pv_rng_seed(&pv_w->yield_rng, a->seed, (uint64_t)a->tid, 0x79);
+    pv_rng r; pv_rng_seed(&r, a->seed, 0xc0c0, (uint64_t)a->tid);
+    pthread_barrier_wait(a->bar);
+    for (int i = 0; i < a->iters; ++i) {
+        char err[400]; err[0] = 0;
+        bool ok = a->fn(&r, i, a->user, err, sizeof err);
+        if (ok) a->res->good++; else if (!a->res->bad++) snprintf(a->res->first, sizeof a->res->first, "thread %d, iteration %d: %s", a->tid, i, err);
+        pv_w->nev = 0; pv_w->nkdf = 0; pv_w->fail_countdown = 0;
+    }
+    a->res->leaked = pv_w->nlive;
+    pv_ledger_reclaim(0);
+    free(pv_w); pv_w = NULL;
+    return NULL;
+}
+void pv_concurrent(int nthreads, int iters, uint64_t seed, int yield_pct, pv_conc_fn fn, void* user, pv_conc_result* out) {
+    pv_world* mainw = pv_w;
+    pthread_t th[64]; conc_arg a[64]; pthread_barrier_t bar;
+    if (nthreads > 64) nthreads = 64;
+    pthread_barrier_init(&bar, NULL, (unsigned)nthreads);
+    for (int t = 0; t < nthreads; ++t) {
+        memset(&out[t], 0, sizeof out[t]);
+        a[t] = (conc_arg){ t, iters, yield_pct, seed, fn, user, &out[t], &bar };
+        if (pthread_create(&th[t], NULL, conc_worker, &a[t])) pv_fatal("pv_concurrent: pthread_create");
+    }
+    for (int t = 0; t < nthreads; ++t) pthread_join(th[t], NULL);
+    pthread_barrier_destroy(&bar);
+    pv_w = mainw;
+}
+bool pv_concurrent_verdict(const pv_conc_result* res, int nthreads, int iters, const char* vio_key, const char* counter) {
+    bool clean = true; uint64_t good = 0;
+    for (int t = 0; t < nthreads; ++t) {
+        good += res[t].good;
+        if (res[t].bad) { clean = false; pv_violation(vio_key, "%llu of %d iterations differ from the model while %d threads work on their own seeds at the same time; first: %s", (unsigned long long)res[t].bad, iters, nthreads, res[t].first); }
+        if (res[t].leaked) { clean = false; pv_violation(vio_key, "thread %d ended with %d blocks still allocated", t, res[t].leaked); }
+    }
+    pv_count_dyn("evaluations", good); pv_count_dyn(counter, good);
+    return clean;
+}
+
 /* ------------------------------------------------------------------ generators */
 void pv_gen_secret(pv_rng* r, uint8_t sec[PV_SECRET]) {
     uint32_t k = pv_randn(r, 16);
